@@ -222,12 +222,20 @@ def main():
         json.dump(jsonable(obj), open(os.path.join(VERIF, p), "w"), indent=1)
         return p
     nrep = 0
-    for f in oracle_fail[:5]:
+    _seen = set(); _distinct = []
+    for f in oracle_fail:
+        k = (f["sweep"], f["failure"][:30])
+        if k in _seen: continue
+        _seen.add(k); _distinct.append(f)
+    for f in _distinct[:8]:
         p = write_replay({"property": prop, "kind": "input", "oracle": f["sweep"], "input": f["case"], "failure": f["failure"]}, nrep); nrep += 1
         violations.append("VIOLATION property=%s replay=%s" % (prop, p))
-    if not oracle_fail:
+    if True:
         if corr_stats["mismatches"] > 0 or driver is None:
-            for m in mismatches[:3]:
+            _fn_seen = set()
+            for m in mismatches:
+                if m["function"] in _fn_seen: continue
+                _fn_seen.add(m["function"])
                 # does the property itself fail on the implementation at this input?
                 found = None
                 c = m.get("_c"); x = m.get("_x")
